@@ -117,6 +117,14 @@ CHECKS["C14"] = dict(
     design_ref="DESIGN.md section 3, C14",
 )
 
+CHECKS["C15"] = dict(
+    engine="symex", category="other",
+    text="PARTIAL (hash-randomisation clause). With `set` iteration order modelled as a symbolic permutation (and iteration over any hash set met by the interpreted code permuted likewise), the real get_extractors -> extract_tokens -> tokenize, CitationToken.merge -> token_is_from_nominative_reporter / ResourceCitation.__hash__, and the reference-pattern construction are executed twice per path (identity order vs arbitrary order) and their results compared; a dependence is confirmed by running the real get_citations in fresh processes with different PYTHONHASHSEED values.",
+    note="NOT decided: thread schedules and cross-call history (no concurrency model of CPython in this technique). merge()'s set()-based de-duplication is order dependent in principle; an exhaustive sweep of the installed reporters-db shows no merge group where that can change a result (recorded as latent, outside the claim). Candidate-edition tuples are compared as sets.",
+    technique="symbolic execution of the Python source with set iteration order as a symbolic permutation (two runs per path, self-composition); subprocess replay with different hash seeds",
+    design_ref="DESIGN.md section 3, C15",
+)
+
 PENDING = {}
 
 NOT_APPLICABLE = {
